@@ -175,6 +175,17 @@ CheckRer ==
        /\ (KF_C13_PvExport(r) \/ KF_C13_CgnExport(r) \/ RLeq(r.rer_onst, r.rer_nrb))
        /\ (KF_C13_CgnExport(r) \/ RLeq(r.rer_nrb, r.rer))
 
+\* ---- C08 at model level: Factors!Strip keeps every factor the evaluation of this building
+\* looks up, so the outcome and the result are those of the full set
+CheckStrip ==
+  Done => LET f == F
+              fs == Strip(f, comps)
+              r == Evaluate(comps, f, K, A, lm, n)
+              dd == CgnDerived(comps, fs)
+              needed == CgnNeeded(comps) \cup UNION {r.cr[c].lookups : c \in r.crs}
+          IN /\ \A key \in needed : Has2(fs, dd, key) /\ Find2(fs, dd, key) = Find2(f, CgnDerived(comps, f), key)
+             /\ Keys(fs) \subseteq Keys(f)
+
 Check ==
   Done => LET f == F
               r == Evaluate(comps, f, K, A, lm, n)
